@@ -12,7 +12,7 @@
   has nothing to read.  Nothing of this depends on the value of `cycles`, so the next tick is idle as well
   until the smallest counter reaches 0: `skip s` ticks are replaced by `bump s (skip s)`.
 
-  `Proofs/Mvp60Fast.lean` relates `runFast` and `run`; the driver runs `runFast`.
+  `Proofs/Mvp60Fast.lean` proves `runFast = run` (`runFast_eq_run`); the driver runs `runFast`.
 -/
 import MajoranaVerif.Model.Mvp60
 open GoInt
@@ -141,25 +141,26 @@ def skip (s : State) (limit : Nat) : Nat :=
   | [] => limit
   | c :: cs => min limit (cs.foldl min c)
 
-/-- the ticks of `Run`, idle stretches in one step -/
-def runFastFrom (app : App) : Nat → State → Nat → Result
-  | 0, s, n => { halt := none, final := s, ticks := n }
-  | fuel + 1, s, n =>
+/-- the ticks of `Run`, idle stretches in one step.  `gas` bounds the number of steps of this function (each consumes at
+least one tick, so `gas = fuel` is enough); without gas, and in the case `skip = 0` that idle states do not have, it
+falls back to `runFrom` — so `runFastFrom = runFrom` holds unconditionally (`Proofs.Mvp60Fast`). -/
+def runFastFrom (app : App) : Nat → Nat → State → Nat → Result
+  | 0, fuel, s, n => runFrom app fuel s n
+  | _ + 1, 0, s, n => { halt := none, final := s, ticks := n }
+  | gas + 1, fuel + 1, s, n =>
     if idle s then
       let k := skip s (fuel + 1)
-      if k = 0 then { halt := none, final := s, ticks := n }     -- not reached: idle counters are positive
-      else runFastFrom app (fuel + 1 - k) (bump s k) (n + k)
+      if k = 0 then runFrom app (fuel + 1) s n
+      else runFastFrom app gas (fuel + 1 - k) (bump s k) (n + k)
     else
       match cycle app s with
-      | (s', .running) => runFastFrom app fuel s' (n + 1)
+      | (s', .running) => runFastFrom app gas fuel s' (n + 1)
       | (s', .done h) => { halt := some h, final := s', ticks := n + 1 }
-termination_by fuel => fuel
-decreasing_by all_goals omega
 
 /-- `NewCPU` + `Run` -/
 def runFast (app : App) (ctx : Model.Context) (eu wu : Nat) (fuel : Nat) : Result :=
   match init ctx eu wu with
-  | .ok s => runFastFrom app fuel s 0
+  | .ok s => runFastFrom app fuel fuel s 0
   | .error _ => { halt := some (.panic "NewCPU"), final := { ctx := ctx, mmu := default }, ticks := 0 }
 
 end Model.Mvp60
